@@ -278,4 +278,6 @@ func init() {
 		"	err := w.validateWrite(fr)\n	if err != nil {", "	err := w.validateWrite(fr)\n	if err != nil && w.numWriteCalls == 1 {", "C05.ERR")
 	mut("C05", "a gate that takes control on open does not grow the region", "cesium/internal/control/region.go",
 		"	r.timeRange = r.timeRange.Union(cfg.TimeRange)\n", "	if r.curr != nil && g.authority <= r.curr.authority {\n		r.timeRange = r.timeRange.Union(cfg.TimeRange)\n	}\n", "C05.R5.range")
+	mut("C10", "SetBounds leaves the domain iterator on the open-time bounds", "cesium/internal/unary/iterator.go",
+		"	i.internal.SetBounds(tr)\n", "	i.internal.SetBounds(i.domainIteratorConfig().Bounds)\n", "C10.R3.bounds")
 }
